@@ -5,7 +5,7 @@ CONSTANTS
   Catalog <- Cat8
   MaxR = 2
   KVals <- K3
-  Orders <- OrdAll
+  Orders <- OrdSome
   FullOrder = FALSE
   Points <- Pts1
   Feeds <- NoFeeds
